@@ -182,6 +182,20 @@ PROPS["C03"] = {
     "assumptions": ["well-formed XML with distinct attribute names per element", "unknown wrappers do not contain vocabulary elements"],
 }
 
+PROPS["C05"] = {
+    "props": ["OsmVerif.Props.C05"],
+    "gens": ["Schema"],
+    "required_theorems": ["mplan_eq", "uplan_eq", "elements_typed", "all_collections_written", "osm_json_roundtrip", "version_decoding",
+                          "absent_fields_stay_empty", "names_eq_osmjson", "small_marshalers_pinned", "codec_routing", "tags_roundtrip",
+                          "waynodes_roundtrip"],
+    "technique": "Lean 4 theorems over the JSON container plans computed from facts regenerated from the source (top-level structs of OSM.MarshalJSON/UnmarshalJSON, elements expression, guarded assignments, dispatch targets, type shims, struct json tags): every element typed and filed back, container round trip for all contents, absent version stays empty, osmjson key names pinned, codec-routing helpers; executable plans and the real code compared on the same inputs; generated round trips and independently written osmjson documents under four codec configurations",
+    "level_text": "Machine-checked proof over plans regenerated from the source: OSM.MarshalJSON writes every collection either into `elements` under its type or as the top-level bounds; every element written carries a type the dispatcher of OSM.UnmarshalJSON files back into the collection it came from; for all top-level fields and all contents (payloads opaque) unmarshal(marshal(x)) = x, absent optional fields staying empty and a version given as string or number taken as written; struct json tags equal the pinned osmjson vocabulary; tags round-trip up to order for distinct keys; way nodes keep exactly their ids; both helpers consult the installed codec. The reflection codecs (encoding/json, or the installed one) are trusted and exercised: seeded values of every kind and container are marshalled, shape-checked on the generic parse, unmarshalled and compared under four codec configurations, and independently written osmjson documents are decoded and compared.",
+    "level_note": "Trusted: Lean kernel; the fact extractor; encoding/json; the pinned vocabulary; the harness's independent osmjson writer. The custom codec used is an encoding/json wrapper with a different encoder configuration (json-iterator is cached offline but its reflect2 dependency does not run on this Go toolchain). Element payloads are opaque in the theorems.",
+    "design_ref": "DESIGN.md §5 C05",
+    "trusted_base": ["encoding/json reflection codec", "independent osmjson writer harness/c05.go"],
+    "assumptions": ["tag keys distinct (JSON objects cannot hold duplicates)", "version numbers in documents are in shortest decimal form"],
+}
+
 NOT_APPLICABLE = {pid: "check not built yet in this session (planned, see DESIGN.md §9); no claim is made" for pid in
                   ["C%02d" % i for i in range(1, 21)] if pid not in PROPS}
 
